@@ -195,25 +195,28 @@ def library():
 def hand_corpus():
     """Programs shaped after constructs the CHANGELOG singles out, plus one of each instruction kind."""
     P = []
-    def S(name, *code):
-        P.append({"name": name, "kind": "struct", "dir": "net", "family": "", "action": "", "code": list(code)})
-    def K(family, action, d, *code):
+    # rt: the program is wire-unambiguous (C01's quantifier); TLC re-checks the tag on the model (PRoundTrip)
+    def S(name, *code, rt=True):
+        P.append({"name": name, "kind": "struct", "dir": "net", "family": "", "action": "", "code": list(code), "rt": rt})
+    def K(family, action, d, *code, rt=True):
         suffix = "ClientPacket" if d == "net/client" else "ServerPacket"
-        P.append({"name": family + action + suffix, "kind": "packet", "dir": d, "family": family, "action": action, "code": list(code)})
+        P.append({"name": family + action + suffix, "kind": "packet", "dir": d, "family": family, "action": action, "code": list(code), "rt": rt})
     S("HInts", field("a", "byte"), field("b", "char"), field("c", "short"), field("d", "three"), field("e", "int"))
     S("HBools", field("p", "bool"), field("q", "bool:short"), field("col", "Color"), field("wide", "Color:short"), field("k", "Kind"))
     S("HStrings", field("fixed", "string", length=3), field("pad", "string", length=4, padded=True),
       field("enc", "encoded_string", length=2), field("rest", "string"))
     S("HEncTail", field("n", "char"), field("rest", "encoded_string"))
     S("HBlob", field("n", "short"), field("data", "blob"))
-    S("HHard", field("", "char", hard=7), field("tag", "string", length=2, hard="OK"), field("", "string", hard="hi"), field("v", "short"))
+    S("HHard", field("", "char", hard=7), field("tag", "string", length=2, hard="OK"), field("", "string", hard="hi"), field("v", "short"), rt=False)    # unsized constant in the middle
+    S("HHard2", field("", "char", hard=7), field("tag", "string", length=2, hard="OK"), field("", "string", length=2, hard="hi"), field("v", "short"),
+      field("flag", "bool", hard=True), field("", "string", hard="end"))
     S("HLenStr", length("name_length", "char"), field("name", "string", length="name_length"), field("z", "char"))
     S("HLenOff", length("n", "short", offset=1), array("xs", "char", length="n"))
     S("HLenNeg", length("n", "char", offset=-1), field("s", "encoded_string", length="n"))
     S("HArrFixed", array("pts", "Coords", length=2), field("z", "char"))
     S("HArrRest", field("n", "char"), array("items", "Item"))
     S("HArrRestShort", array("vals", "short"))
-    S("HArrTail", field("n", "char"), array("tails", "Tail"))
+    S("HArrTail", field("n", "char"), array("tails", "Tail"), rt=False)                 # optional tails inside array elements
     S("HOpt", field("a", "char"), field("b", "short", optional=True), field("c", "string", optional=True))
     S("HOptStruct", field("a", "char"), field("c", "Coords", optional=True), field("d", "char", optional=True))
     S("HChunk", chunked(field("name", "string"), brk(), field("title", "string"), brk(), field("n", "short")))
@@ -239,16 +242,22 @@ def hand_corpus():
     S("HOptArr", field("a", "char"), array("xs", "char", optional=True))
     S("HOptLen", field("a", "char"), length("n", "char", optional=True), field("s", "string", length="n", optional=True))
     S("HOptCaseOpt", field("kind", "char"), field("b", "short", optional=True),
-      switch("kind", "char", case(1, field("y", "char", optional=True)), case(2, field("r", "char", optional=True), field("t", "string", optional=True))))
-    S("HCaseOptThenOpt", field("kind", "char"), switch("kind", "char", case(1, field("y", "char", optional=True))), field("z", "char", optional=True))
-    S("HNestDummy", field("a", "char"), field("d", "HDummyAfter"), field("z", "char"))
+      switch("kind", "char", case(1, field("y", "char", optional=True)), case(2, field("r", "char", optional=True), field("t", "string", optional=True))), rt=False)
+    S("HCaseOptThenOpt", field("kind", "char"), switch("kind", "char", case(1, field("y", "char", optional=True))), field("z", "char", optional=True), rt=False)
+    S("HNestDummy", field("a", "char"), field("d", "HDummyAfter"), field("z", "char"), rt=False)        # dummy in a non-empty body
     S("HCaseArrDummy", field("kind", "char"), switch("kind", "char", case(1, array("xs", "char"), dummy("short", 7))))
     S("HChunkInChunk", chunked(field("a", "string"), brk(), chunked(field("b", "string"), brk()), field("c", "string")))
     S("HCaseChunkThenStr", chunked(field("kind", "char"), switch("kind", "char", case(2, chunked(field("q", "string"), brk()), field("t", "string")))))
     S("HArrOfChunked", field("n", "char"), array("people", "Named", length=2), field("tail", "string"))
-    S("HPadInChunk", chunked(field("p", "string", length=3, padded=True), field("e", "encoded_string", length=2, padded=True), brk(), field("s", "string")))
+    S("HPadInChunk", chunked(field("p", "string", length=3, padded=True), field("e", "encoded_string", length=2, padded=True), brk(), field("s", "string")), rt=False)   # 0xFF padding inside a chunk
     S("HEnumArr", length("n", "char"), array("cols", "Color", length="n"), array("kinds", "Kind:char"))
     S("HBoolArr", array("flags", "bool", length=2), array("rest", "bool:short"))
+    S("HDelimInts", chunked(field("first", "char"), brk(), array("vals", "short", delimited=True)))
+    S("HDelimCoords", chunked(field("n", "char"), brk(), array("pts", "Coords", delimited=True, trailing=True)))
+    S("HChunkThenPad", chunked(field("name", "string"), brk()), field("pad", "string", length=3, padded=True), field("b", "byte"), field("m", "char"))
+    S("HChunkThenStr", chunked(field("name", "string"), brk()), field("b", "byte"), field("t", "string"))
+    S("HPadOnly", field("p", "string", length=3, padded=True))
+    S("HEncPadOnly", field("p", "encoded_string", length=2, padded=True), field("z", "char"))
     K("Talk", "Request", "net/client", field("msg", "string"))
     K("Account", "Reply", "net/server", field("code", "short"),
       switch("code", "short", case(1, field("reason", "string")), case(None, chunked(field("name", "string"), brk(), field("id", "int")), default=True)))
